@@ -693,3 +693,67 @@ func c14SkipWait(e *Env) {
 	}
 	r.Floor(rule, n, 6, "Reader.Skip calls in the HTTP/1 body code")
 }
+
+// C20.divzero — integer division in the expression evaluator tests the divisor it uses.
+func c20DivZero(e *Env) {
+	const rule = "C20.divzero"
+	w, r := e.W, e.R
+	r.Explainf("C20.divzero: the evaluator computes in float64, where division by zero yields ±Inf/NaN, except where it converts to integers: `int64(a) %% int64(b)` panics when int64(b) is 0 — also for a float divisor strictly between -1 and 1 (a field value from the request). In package internal/tagexpr every integer `%%` or `/` with a non-constant divisor D is preceded, on the way to it, by `if D == 0 { return … }` on the SAME integer expression (or the local holding it); a test of the float before truncation does not cover it.")
+	n := 0
+	for _, fi := range declaredNonTest(w) {
+		if fi.Decl.Body == nil || w.RelPkg(fi.Obj.Pkg()) != "internal/tagexpr" {
+			continue
+		}
+		info := fi.Pkg.TypesInfo
+		par := parents(fi.Decl)
+		fname := w.FuncName(fi.Obj)
+		k := 0
+		ast.Inspect(fi.Decl.Body, func(nd ast.Node) bool {
+			be, ok := nd.(*ast.BinaryExpr)
+			if !ok || (be.Op != token.REM && be.Op != token.QUO) {
+				return true
+			}
+			t, _ := info.TypeOf(be.Y).Underlying().(*types.Basic)
+			if t == nil || t.Info()&types.IsInteger == 0 {
+				return true
+			}
+			if tv, ok := info.Types[be.Y]; ok && tv.Value != nil {
+				return true
+			}
+			k++
+			n++
+			dstr := types.ExprString(unparen(be.Y))
+			guarded := false
+			var stmt ast.Node = be
+			for par[stmt] != nil {
+				if _, isStmt := stmt.(ast.Stmt); isStmt {
+					break
+				}
+				stmt = par[stmt]
+			}
+			for _, s := range precedingStmts(par, stmt) {
+				is, ok := s.(*ast.IfStmt)
+				if !ok || !blockLeaves(is.Body) {
+					continue
+				}
+				for _, p := range splitOp(is.Cond, token.LOR) {
+					c, ok := p.(*ast.BinaryExpr)
+					if !ok || c.Op != token.EQL {
+						continue
+					}
+					x, y := unparen(c.X), unparen(c.Y)
+					if z, isC := constInt(info, y); isC && z == 0 && types.ExprString(x) == dstr {
+						guarded = true
+					}
+					if z, isC := constInt(info, x); isC && z == 0 && types.ExprString(y) == dstr {
+						guarded = true
+					}
+				}
+			}
+			r.Check(guarded, rule, fmt.Sprintf("%s:int-%s#%d", fname, map[token.Token]string{token.REM: "rem", token.QUO: "div"}[be.Op], k), w.Pos(be.Pos()), "an integer division tests the divisor it uses for zero",
+				"`"+types.ExprString(be)+"` divides by `"+dstr+"` and no earlier `if "+dstr+" == 0 { return … }` covers it: a divisor that truncates to 0 (a field value between -1 and 1) panics with integer divide by zero during validation")
+			return true
+		})
+	}
+	r.Floor(rule, n, 1, "integer divisions with a non-constant divisor in internal/tagexpr")
+}
